@@ -42,3 +42,11 @@ impl LuaIndex for LuaMetatableIndex {
         self.metatables.clear();
     }
 }
+
+#[cfg(feature = "verif-hooks")]
+impl LuaMetatableIndex {
+    /// verif hook H1: entry counts of every map of this index
+    pub fn verif_sizes(&self, out: &mut Vec<(String, usize)>) {
+        out.push(("metatable.metatables".into(), self.metatables.len()));
+    }
+}
